@@ -84,9 +84,10 @@ func TestVerifC04_Calibration(t *testing.T) {
 	}
 }
 
-// vc04Decode decodes data through the storage path (UnmarshalBinary) into a slice
+// vc04DecodeAll decodes data through the storage path (UnmarshalBinary) into a slice
 // and a B-tree bitmap and through the import path (roaring iterator) into empty
-// bitmaps; every result must be the set m; data must stay untouched.
+// bitmaps, then decodes it a second time; every result must be the set m; data
+// must stay untouched.
 func vc04DecodeAll(t *rapid.T, what string, data []byte, m []uint64, wantFlags byte, dirty bool) {
 	orig := vr2CopyBytes(data)
 	unchanged := func(step string) {
@@ -94,51 +95,68 @@ func vc04DecodeAll(t *rapid.T, what string, data []byte, m []uint64, wantFlags b
 			t.Fatalf("%s: %s modified the input bytes (first difference at byte %d: %#x -> %#x)", what, step, i, orig[i], data[i])
 		}
 	}
-	for pass := 0; pass < 2; pass++ {
-		for _, kind := range []string{"slice", "btree"} {
-			var b *Bitmap
-			if kind == "slice" {
-				b = NewBitmap()
-			} else {
-				b = NewBTreeBitmap()
-			}
-			if dirty {
-				// a used bitmap: decoding replaces its contents
-				b.DirectAddN(3, 65536+7, 5<<16)
-				b.Flags = 0x5a
-			}
-			if err := b.UnmarshalBinary(data); err != nil {
-				t.Fatalf("%s: UnmarshalBinary (%s, pass %d): %v", what, kind, pass, err)
-			}
-			unchanged(fmt.Sprintf("UnmarshalBinary(%s) pass %d", kind, pass))
-			if err := vr2ReadAll(b, m); err != nil {
-				t.Fatalf("%s: decoded (%s, pass %d) differs from the encoded set: %v", what, kind, pass, err)
-			}
-			if b.Flags != wantFlags {
-				t.Fatalf("%s: decoded Flags=%#x want %#x (%s)", what, b.Flags, wantFlags, kind)
-			}
-			// import path into an empty bitmap
-			var ib *Bitmap
-			if kind == "slice" {
-				ib = NewBitmap()
-			} else {
-				ib = NewBTreeBitmap()
-			}
-			changed, _, err := ib.ImportRoaringBits(data, false, false, 0)
-			if err != nil {
-				t.Fatalf("%s: ImportRoaringBits into empty %s bitmap: %v", what, kind, err)
-			}
-			unchanged(fmt.Sprintf("ImportRoaringBits(%s) pass %d", kind, pass))
-			if err := vr2ReadAll(ib, m); err != nil {
-				t.Fatalf("%s: import into empty %s bitmap differs from the encoded set (import path vs storage path): %v", what, kind, err)
-			}
-			if changed != len(m) {
-				t.Fatalf("%s: import into empty %s bitmap reports changed=%d want %d", what, kind, changed, len(m))
-			}
-			// the decoded (mapped) bitmap is still right after the other decodes
-			if got := vSliceByContainers(b); !vEq(got, m) {
-				t.Fatalf("%s: decoded %s bitmap changed after importing the same bytes elsewhere: %s", what, kind, vDiff(got, m))
-			}
+	light := func(b *Bitmap) error {
+		if err := vCheckStructure(b); err != nil {
+			return err
+		}
+		if got := vSliceByContainers(b); !vEq(got, m) {
+			return fmt.Errorf("%s", vDiff(got, m))
+		}
+		if got := b.Count(); got != uint64(len(m)) {
+			return fmt.Errorf("Count=%d want %d", got, len(m))
+		}
+		return nil
+	}
+	var decoded []*Bitmap
+	for _, kind := range []string{"slice", "btree", "slice(second decode)"} {
+		mk := NewBitmap
+		if kind == "btree" {
+			mk = NewBTreeBitmap
+		}
+		b := mk()
+		if dirty {
+			// a used bitmap: decoding replaces its contents
+			b.DirectAddN(3, 65536+7, 5<<16)
+			b.Flags = 0x5a
+		}
+		if err := b.UnmarshalBinary(data); err != nil {
+			t.Fatalf("%s: UnmarshalBinary (%s): %v", what, kind, err)
+		}
+		unchanged("UnmarshalBinary(" + kind + ")")
+		var err error
+		if kind == "slice" {
+			err = vr2ReadAll(b, m)
+		} else {
+			err = light(b)
+		}
+		if err != nil {
+			t.Fatalf("%s: decoded (%s) differs from the encoded set: %v", what, kind, err)
+		}
+		if b.Flags != wantFlags {
+			t.Fatalf("%s: decoded Flags=%#x want %#x (%s)", what, b.Flags, wantFlags, kind)
+		}
+		decoded = append(decoded, b)
+		if kind == "slice(second decode)" {
+			break
+		}
+		// import path into an empty bitmap
+		ib := mk()
+		changed, _, err := ib.ImportRoaringBits(data, false, false, 0)
+		if err != nil {
+			t.Fatalf("%s: ImportRoaringBits into empty %s bitmap: %v", what, kind, err)
+		}
+		unchanged("ImportRoaringBits(" + kind + ")")
+		if err := light(ib); err != nil {
+			t.Fatalf("%s: import into empty %s bitmap differs from the encoded set (import path vs storage path): %v", what, kind, err)
+		}
+		if changed != len(m) {
+			t.Fatalf("%s: import into empty %s bitmap reports changed=%d want %d", what, kind, changed, len(m))
+		}
+	}
+	// the decoded (mapped) bitmaps are still right after the other decodes of the same bytes
+	for i, b := range decoded {
+		if got := vSliceByContainers(b); !vEq(got, m) {
+			t.Fatalf("%s: decoded bitmap #%d changed after decoding/importing the same bytes elsewhere: %s", what, i, vDiff(got, m))
 		}
 	}
 }
@@ -189,15 +207,23 @@ func TestVerifC04_Roundtrip(t *testing.T) {
 			t.Fatalf("encoding changed the bitmap %s: %v", sp.describe(), err)
 		}
 		vc04DecodeAll(t, format+" encoding of "+sp.describe(), buf.Bytes(), m, flags, dirty)
-		// encoding again gives the same bytes (a snapshot of an unchanged bitmap is stable)
+		// encoding the unchanged bitmap again describes the same set (the bytes may differ:
+		// Optimize is allowed to pick other container types on a later pass)
 		var buf2 bytes.Buffer
 		if unopt {
 			_, err = b.writeToUnoptimized(&buf2)
 		} else {
 			_, err = b.WriteTo(&buf2)
 		}
-		if err != nil || !bytes.Equal(buf.Bytes(), buf2.Bytes()) {
-			t.Fatalf("second encoding of the unchanged bitmap differs (err=%v) for %s", err, sp.describe())
+		if err != nil {
+			t.Fatalf("second encoding: %v", err)
+		}
+		d2 := NewBitmap()
+		if err := d2.UnmarshalBinary(buf2.Bytes()); err != nil {
+			t.Fatalf("second encoding of %s does not decode: %v", sp.describe(), err)
+		}
+		if got := d2.Slice(); !vEq(got, m) || d2.Flags != flags {
+			t.Fatalf("second encoding of %s decodes differently: %s", sp.describe(), vDiff(got, m))
 		}
 		c.NT(vr2PayloadNonTrivial(sp, format))
 		c.Sample(map[string]interface{}{"bitmap": sp.describe(), "flags": flags, "format": format, "bytes": buf.Len()})
